@@ -930,3 +930,57 @@ Section SpecFacts.
     destruct H as [H|H]; [left; exact H|right; apply IH; exact H].
   Qed.
 End SpecFacts.
+
+(* ------------------------- the id-keyed meaning of a typed (per-block) table *)
+From Coq Require Import Permutation.
+Section TypedTables.
+  Context {X : Type}.
+
+  Lemma insert_row_permutation : forall (r : row X) t, Permutation (insert_row r t) (r :: t).
+  Proof.
+    induction t as [|r' t IH]; simpl; [reflexivity|].
+    destruct (fst r <=? fst r')%Z; [reflexivity|]. rewrite IH. apply perm_swap.
+  Qed.
+
+  Lemma sort_rows_permutation : forall t : table X, Permutation (sort_rows t) t.
+  Proof.
+    induction t as [|r t IH]; simpl; [reflexivity|].
+    rewrite insert_row_permutation. constructor. exact IH.
+  Qed.
+
+  Lemma lookup_not_in : forall id (t : table X), ~ In id (map fst t) -> lookup id t = None.
+  Proof.
+    induction t as [|[i r] t IH]; intros H; [reflexivity|]. simpl in *.
+    destruct (Z.eqb_spec i id); [subst; tauto|]. apply IH. tauto.
+  Qed.
+
+  Lemma lookup_permutation : forall (t t' : table X) id,
+    Permutation t t' -> NoDup (map fst t) -> lookup id t = lookup id t'.
+  Proof.
+    intros t t' id HP. induction HP as [|[i r] t t' HP IH|[i r] [j s] t|t t' t'' HP1 IH1 HP2 IH2];
+      intros Hnd.
+    - reflexivity.
+    - simpl. destruct (i =? id)%Z; [reflexivity|]. apply IH. simpl in Hnd. inversion Hnd. assumption.
+    - simpl in *. inversion Hnd as [|? ? Hni _]; subst.
+      destruct (Z.eqb_spec j id), (Z.eqb_spec i id); try reflexivity.
+      subst. exfalso. apply Hni. left. reflexivity.
+    - rewrite IH1 by exact Hnd. apply IH2.
+      apply (Permutation_NoDup (Permutation_map fst HP1)). exact Hnd.
+  Qed.
+
+  (* looking an id up in `.ids/.data` of a typed table (single block as stored,
+     several blocks sorted by id) is looking it up in the blocks themselves *)
+  Theorem ea_table_lookup : forall ETYPES (bs : list (str * table X)) id,
+    NoDup (map fst (flat_map snd (ordered_blocks ETYPES bs))) ->
+    lookup id (ea_table ETYPES bs) = lookup id (flat_map snd (ordered_blocks ETYPES bs)).
+  Proof.
+    intros ETYPES bs id Hnd. unfold ea_table.
+    destruct (ordered_blocks ETYPES bs) as [|[t tb] [|b2 rest]].
+    - reflexivity.
+    - simpl. rewrite app_nil_r. reflexivity.
+    - apply lookup_permutation.
+      + apply sort_rows_permutation.
+      + apply (Permutation_NoDup (Permutation_map fst (Permutation_sym (sort_rows_permutation _)))).
+        exact Hnd.
+  Qed.
+End TypedTables.
